@@ -204,8 +204,12 @@ class C14(Prop):
         ls = [l for l in Prop.canon(self, lines) if not (l.startswith("logon") or l.startswith("net_dead") or l.startswith("err *"))]
 
         def key(l):
-            t = l.split(" ", 1)[0]
-            return int(t[1:]) if t[:1] == "u" and t[1:].isdigit() else 99
+            ts = l.split(" ", 2)
+            t = ts[0]
+            # the texts a user receives as a snooper are logged by LPC code while ANOTHER user's event is processed; where
+            # they fall between the snooper's own ring events of the same pass depends on the order epoll reports the
+            # events: they form a sub-stream of their own (order among themselves kept; the oracle ignores them)
+            return (int(t[1:]) if t[:1] == "u" and t[1:].isdigit() else 99, 1 if ts[1:2] == ["snoop"] else 0)
         return sorted(ls, key=key)
 
     # ---- boundary -----------------------------------------------------------
